@@ -196,6 +196,15 @@ def run(chk, repo, tier):
     chk.ob('C14-c', 'N-flux', fto.key, 'flux branch', ok_f and n_f > 0,
            det_f or 'converted through metres and back', fto.loc())
 
+    fto_ = repo.func('radiometry.Spectrum.to')
+    early = []
+    for loop in [n for n in ast.walk(fto_.node) if isinstance(n, ast.For)]:
+        for n in ast.walk(loop):
+            if isinstance(n, (ast.Return, ast.Break)):
+                early.append(f'`{type(n).__name__.lower()}` at {fto_.loc(n)}')
+    chk.ob('C14-c', 'D-dominance', fto_.key, 'every requested unit is converted: the loop over the arguments is never left early', not early,
+           '; '.join(early) or 'no return/break inside the loop over *args', fto_.loc())
+
     # ------------------------------------------------------------ C14-d / e
     fr, fe = repo.func('radiometry.planck_radiance'), repo.func('radiometry.planck_exitance')
     xm = None
@@ -233,6 +242,17 @@ def run(chk, repo, tier):
             ok_d, msg, d = dims.check(fluxe, ad, want=dims.D(kg=1, s=-3, m=-1)) if fluxe is not None else (False, '?', None)
             chk.ob('C14-e', 'U-dims', 'radiometry.planck_exitance', 'dimension of the flux (W m^-2 m^-1)',
                    ok_d is True, msg, fe.loc())
+
+    for fn_ in (fr, fe):
+        _, pp_, _ = analyse(repo, fn_, symbolic_globals=True)
+        raw = []
+        for p_ in returns(pp_):
+            for e_ in p_.events:
+                if e_.kind == 'arith' and e_.data.get('op') == 'pow' and e_.data.get('left') == S('wave') and \
+                        isinstance(e_.data.get('right'), Poly) and (e_.data['right'].const_value() or 0) >= 2:
+                    raw.append(f'wave**{fmt(e_.data["right"])} at {e_.loc()}')
+        chk.ob('C14-e', 'T-dtype', fn_.key, 'powers of the wavelength are taken after the conversion to metres (a float array), never of the '
+               'caller\'s own (possibly integer) array', not raw, '; '.join(sorted(set(raw))[:2]) or 'wave is scaled to metres first', fn_.loc())
 
     # ---------------------------------------------------------------- C14-f
     mod = repo.modules['radiometry']
